@@ -252,7 +252,14 @@ inline vegas_pdf<T> vegas_refine_pdf(vegas_pdf<T> const& pdf, T alpha, std::vect
             T const current  = pdf.bin_left(i, bin);
             this_bin -= average_per_bin;
             T const delta = (current - previous) * this_bin;
-            T const new_left = current - delta / tmp[bin - 1];
+            T new_left = current - delta / tmp[bin - 1];
+
+            // the new boundary lies inside the old bin [previous, current]; rounding (of very
+            // narrow bins in particular) must not move it below the bin and past earlier boundaries
+            if (new_left < previous)
+            {
+                new_left = previous;
+            }
 
             new_pdf.set_bin_left(i, new_bin, new_left);
         }
